@@ -18,7 +18,7 @@
      spec_lookup e ty syn sec k     first defined [layer_value] scanning documented_order from
                                     its most specific end (User) down to Default.              *)
 From Emmet Require Import lib.Base lib.ConfigLib gen.GenLayerOrder gen.GenConfig model.Config
-  proofs.ConfigProofs proofs.ConfigTables.
+  proofs.ConfigProofs proofs.ConfigTables proofs.ConfigPurity.
 
 (* ---- the order of the update statements read from the source IS the documented one
    (swapping two `result.update` lines, or fetching a layer from the other table or under
@@ -135,6 +135,54 @@ Theorem C20_all_subsets_complete :
   forall d td sd to so u : bool, In [d; td; sd; to; so; u] all_subsets.
 Proof. exact all_subsets_complete. Qed.
 Print Assumptions C20_all_subsets_complete.
+
+(* ---- PURITY: "merging never modifies the built-in tables or the caller's dictionaries", on the
+   model with explicit object identities (proofs/ConfigPurity.v): a heap of dict objects whose
+   values are data or REFERENCES to other dict objects; DEFAULT_CONFIG, SYNTAX_CONFIG,
+   global_config and user_config are four root references, their layer configs and sections
+   further objects in ANY aliasing pattern (no well-formedness is assumed).
+   [merged_data_heap] follows merged_data statement by statement (allocates `empty` and
+   `result`, one `result.update(section)` per generated statement; ill-typed accesses fail).
+   Whenever it returns: every object that existed before has the same contents, `empty` is
+   still empty, the result is a new object and nothing else was allocated. *)
+Theorem C20_merge_preserves_heap :
+  forall (V : Type) (h : heap V) (roots : layer_refs) (ty syn sec : str) (h' : heap V) (r : ref),
+    merged_data_heap h roots ty syn sec = Some (h', r) ->
+    (forall a, a < next_ref h -> heap_get h' a = heap_get h a) /\
+    heap_get h' (next_ref h) = Some [] /\
+    r = S (next_ref h) /\ heap_get h r = None /\
+    next_ref h' = S (S (next_ref h)).
+Proof. exact (@merge_preserves_heap). Qed.
+Print Assumptions C20_merge_preserves_heap.
+
+(* ... and it computes the pure model: when the heap holds the layers an abstract environment
+   [e] describes ([reads_env]: following the references from the roots yields e's sections),
+   the call succeeds and the new object holds exactly [merged_data e ty syn sec], to which
+   C20_merged_lookup applies *)
+Theorem C20_merge_heap_refines :
+  forall (V : Type) (h : heap V) (roots : layer_refs) (ty syn sec : str) (e : env (val V)),
+    reads_env h roots ty syn sec e ->
+    exists h' r, merged_data_heap h roots ty syn sec = Some (h', r) /\
+                 heap_get h' r = Some (merged_data e ty syn sec).
+Proof. exact (@merge_heap_refines). Qed.
+Print Assumptions C20_merge_heap_refines.
+
+(* non-vacuity of the heap model, with the nastiest aliasing: the caller's config shares its
+   options object (4) with DEFAULT_CONFIG, and the global config IS SYNTAX_CONFIG (1) *)
+Example C20_purity_nonvacuous :
+  let ka : str := [97]%N in
+  let h : heap Z := [ [(s_options, VRef 4)];                     (* 0: DEFAULT_CONFIG *)
+                      [(s_markup, VRef 5)];                      (* 1: SYNTAX_CONFIG = global_config *)
+                      [];                                        (* 2: unused *)
+                      [(s_options, VRef 4)];                     (* 3: user_config *)
+                      [(ka, VData 1%Z)];                         (* 4: shared options dict *)
+                      [(s_options, VRef 6)];                     (* 5: layer config of 'markup' *)
+                      [(ka, VData 2%Z); (s_html, VData 3%Z)] ]   (* 6: its options *) in
+  let roots := {| r_default := 0; r_syntax_config := 1; r_global := 1; r_user := 3 |} in
+  exists h', merged_data_heap h roots s_markup s_html s_options = Some (h', 8) /\
+             heap_get h' 8 = Some [(ka, VData 1%Z); (s_html, VData 3%Z)] /\
+             firstn 7 h' = h.
+Proof. cbv zeta. eexists. split; [vm_compute; reflexivity|]. split; reflexivity. Qed.
 
 (* ---- non-vacuity: on the generated tables, Config({'syntax': 'xsl'}, global) with a
    global syntax override and a user override: the user's value wins for "a", the global
